@@ -440,12 +440,17 @@ Proof.
 Qed.
 
 (* ------------------------------------------------------------------ the token check *)
+Lemma live_at_live : forall ct s, live_at ct s = true -> live s = true.
+Proof. intros ct s H. unfold live_at in H. apply andb_prop in H. tauto. Qed.
+Lemma dead_not_live_at : forall ct s, live s = false -> live_at ct s = false.
+Proof. intros ct s H. unfold live_at. rewrite H. reflexivity. Qed.
+
 (* the property, part (d) *)
 Lemma check_past_grace : forall a oid parent iat ct,
   check a oid parent iat ct = true -> iat + GRACE <= ct ->
-  (exists o, lookup oid (a_o2s a) = Some o /\ live (o_state o) = true)
+  (exists o, lookup oid (a_o2s a) = Some o /\ live_at ct (o_state o) = true)
   /\ match parent with
-     | Some p => (exists u, lookup p (a_uats a) = Some u /\ live (u_state u) = true) \/ In p (a_apis a)
+     | Some p => (exists u, lookup p (a_uats a) = Some u /\ live_at ct (u_state u) = true) \/ In p (a_apis a)
      | None => True
      end.
 Proof.
@@ -453,7 +458,7 @@ Proof.
   assert (G : (ct <? iat + GRACE) = false) by (apply N.ltb_ge; exact Hle).
   rewrite G in H.
   destruct (lookup oid (a_o2s a)) as [o|]; [|discriminate].
-  destruct (live (o_state o)) eqn:Lo; cbn [negb] in H; [|discriminate].
+  destruct (live_at ct (o_state o)) eqn:Lo; cbn [negb] in H; [|discriminate].
   split; [exists o; auto|].
   destruct parent as [p|]; [|exact I].
   destruct (lookup p (a_uats a)) as [u|].
@@ -461,23 +466,51 @@ Proof.
   - right. destruct (memN p (a_apis a)) eqn:M; [apply memN_In; exact M | discriminate].
 Qed.
 
-(* a revoked parent login session rejects the token at any time, as soon as the OAuth2 session
-   record is on the entry; without the record only the grace window is left *)
-Lemma check_revoked_parent : forall a oid p u iat ct,
-  lookup p (a_uats a) = Some u -> live (u_state u) = false ->
+(* at EVERY time (inside grace too): an accepted token whose record / named parent login session is
+   on the entry has them neither revoked nor expired *)
+Lemma check_accept_live : forall a oid parent iat ct,
+  check a oid parent iat ct = true ->
+  (forall o, lookup oid (a_o2s a) = Some o -> live_at ct (o_state o) = true
+     /\ forall p u, parent = Some p -> lookup p (a_uats a) = Some u -> live_at ct (u_state u) = true).
+Proof.
+  intros a oid parent iat ct H o Lo. unfold check in H. rewrite Lo in H.
+  destruct (live_at ct (o_state o)) eqn:L; cbn [negb] in H; [|discriminate].
+  split; [reflexivity|]. intros p u Ep Lu. subst parent. rewrite Lu in H. exact H.
+Qed.
+
+(* a parent login session that is revoked or past its expiry rejects the token at any time, as soon
+   as the OAuth2 session record is on the entry; without the record only the grace window is left *)
+Lemma check_dead_parent : forall a oid p u iat ct,
+  lookup p (a_uats a) = Some u -> live_at ct (u_state u) = false ->
   check a oid (Some p) iat ct = true ->
   lookup oid (a_o2s a) = None /\ ct < iat + GRACE.
 Proof.
   intros a oid p u iat ct L Lv H. unfold check in H. rewrite L, Lv in H.
   destruct (lookup oid (a_o2s a)) as [o|].
-  - destruct (negb (live (o_state o))); discriminate.
+  - destruct (negb (live_at ct (o_state o))); discriminate.
   - split; [reflexivity | apply N.ltb_lt; exact H].
 Qed.
+
+Lemma check_revoked_parent : forall a oid p u iat ct,
+  lookup p (a_uats a) = Some u -> live (u_state u) = false ->
+  check a oid (Some p) iat ct = true ->
+  lookup oid (a_o2s a) = None /\ ct < iat + GRACE.
+Proof.
+  intros a oid p u iat ct L Lv H.
+  exact (check_dead_parent a oid p u iat ct L (dead_not_live_at ct _ Lv) H).
+Qed.
+
+Lemma check_dead_o2 : forall a oid o parent iat ct,
+  lookup oid (a_o2s a) = Some o -> live_at ct (o_state o) = false ->
+  check a oid parent iat ct = false.
+Proof. intros a oid o parent iat ct L Lv. unfold check. rewrite L, Lv. reflexivity. Qed.
 
 Lemma check_revoked_o2 : forall a oid o parent iat ct,
   lookup oid (a_o2s a) = Some o -> live (o_state o) = false ->
   check a oid parent iat ct = false.
-Proof. intros a oid o parent iat ct L Lv. unfold check. rewrite L, Lv. reflexivity. Qed.
+Proof.
+  intros a oid o parent iat ct L Lv. exact (check_dead_o2 a oid o parent iat ct L (dead_not_live_at ct _ Lv)).
+Qed.
 
 (* end to end: a credential leaves the account in transaction k; whatever happens afterwards, a
    token that names a login session issued with that credential as its parent is only ever
